@@ -63,6 +63,10 @@ def run_case(case, res):
 
     configs = []
     gen = al.generic_points(n)
+    # a float and an int-knot configuration first: evaluation of exact data must not depend on what was evaluated before
+    # on numerically equal knots of another number type
+    configs.append((gen, None, "float"))
+    configs.append((gen, None, "int"))
     gen2 = al.generic_points(n, 2)
     gw = al.generic_weights(n)
     for W in (None, gw):
@@ -111,6 +115,16 @@ def run_case(case, res):
             else:
                 for u, ex, v in zip(prm, expect, vals):
                     _cmp(res, ("ok", v), ex, exact, U, P, W, rep, u, p, "sequence")
+        # numpy array of nodes (float representations): same values, same order
+        if rep == "npfloat":
+            res.transition()
+            out = lib.outcome(c, lib.np.array([float(u) for u in prm], dtype="float64"))
+            if out[0] != "ok" or len(out[1]) != len(prm):
+                res.violation("shape", f"curve(np.array of {len(prm)} nodes) gave {out[:2] if out[0] != 'ok' else len(out[1])}; U={U}",
+                              call="nparray", rep=rep)
+            else:
+                for u, ex, v in zip(prm, expect, out[1]):
+                    _cmp(res, ("ok", v), ex, exact, U, P, W, rep, u, p, "nparray")
         # outside
         for u in outside:
             for arg, call in ((lib.conv(u, rep), "scalar"), ([lib.conv(prm[0], rep), lib.conv(u, rep)], "sequence")):
